@@ -68,7 +68,7 @@ memory_write = Contract(qualname="dsl_compiler/src/ir/builder.py::IRBuilder.memo
 mem_sig_type = Contract(qualname=ML + "_memory_signal_type", params={"self": _OPQ, "memory_name": ty.Str}, returns=ty.TOpt(ty.Str), verify=False,
                         note="ASSUMED: the declared / inferred type of the cell or None")
 coerce = Contract(qualname=ML + "_coerce_to_signal_type", params={"self": _OPQ, "value_ref": _OPQ, "signal_type": _OPQ, "node": _OPQ},
-                  effect=_coerce_effect, verify=False, note="ASSUMED: returns the data reference on the cell's type")
+                  effect=_coerce_effect, verify=False, note="proved below (coerce_contract): the data reference on the cell's type")
 
 
 def _post(a, res):
